@@ -64,7 +64,12 @@ fn member(r: &mut Rng, now: i128, dir: i128) -> Option<Value> {
     match r.below(16) {
         0 | 1 => None,
         2 => Some(Value::Null),
-        3 | 4 => Some(non_timestamp_value(r)),
+        3 => Some(non_timestamp_value_at(r, now)),
+        4 => {
+            // a look-alike denoting an instant on the *good* side of now: only strict parsing rejects it
+            let t = (now + dir * r.range(DAY, 365 * DAY)).clamp(T_1971, t_9000() - 1);
+            Some(json!(near_miss_timestamp(r, t)))
+        }
         _ => {
             let d = delta(r, now);
             let t = (now + d).clamp(T_1971, t_9000() - 1);
@@ -115,7 +120,7 @@ fn gen(ctx: &GenCtx, i: u64, prop: &str) -> Option<Run> {
                 5 => created - r.range(1, HOUR),
                 _ => created + r.range(0, 2 * HOUR),
             };
-            rb.push(Op::Deliver { msg: t.msg, to: v, now_ns: Ns(at), ticks: ticks(&mut r), twin: false, control: Some(Box::new(control.clone())) });
+            rb.push(Op::Deliver { msg: t.msg, to: v, now_ns: Ns(at), ticks: ticks(&mut r), twin: false, control: Some(Box::new(control.clone())), key: None });
             continue;
         }
         let mut payload = serde_json::Map::new();
@@ -134,7 +139,7 @@ fn gen(ctx: &GenCtx, i: u64, prop: &str) -> Option<Run> {
         }
         let opts = IssueOpts { proto, layer: Layer::Core, key, footer: footer.clone(), assertion: assertion.clone(), now, message: String::new(), json_payload: Some(Value::Object(payload)), extra_claims: vec![] };
         let t = issue(&mut rb, &mut r, opts);
-        rb.push(Op::Deliver { msg: t.msg, to: v, now_ns: Ns(now), ticks: ticks(&mut r), twin: k == 0, control: Some(Box::new(control.clone())) });
+        rb.push(Op::Deliver { msg: t.msg, to: v, now_ns: Ns(now), ticks: ticks(&mut r), twin: k == 0, control: Some(Box::new(control.clone())), key: None });
     }
     Some(rb.finish())
 }
